@@ -377,10 +377,11 @@ func (s *sigVM) runCase(c *Case) (res caseResult) {
 		} else {
 			errText = r.Ctl.AsString()
 		}
+		errText = strings.TrimPrefix(errText, "throw ")
 		if c.Try {
 			// an error that escaped `catch (Exception $e)` is not what the statement calls catchable
 			res.Viol = append(res.Viol, viol{
-				"path=" + sig.Path + ",fail=error-not-catchable,msg=" + keyText(errText),
+				"path=" + sig.Path + ",fail=error-not-catchable,msg=" + keyText(stripGoTrace(errText)),
 				fmt.Sprintf("%s called with (%s): the error escaped catch (Exception $e): %s", sig, showArgs(passed), errText)})
 		}
 	case !st.done || len(st.results) != 1:
@@ -463,7 +464,9 @@ func (s *sigVM) runCase(c *Case) (res caseResult) {
 		res.Inconcl = "conv wrapper did not run"
 		return
 	}
-	res.Nontrivial = st.bodyRan > 0 || (outcome == "error" && (nMust > 0 || st.convErr != "" || strings.Contains(errText, "转换")))
+	// an error that is merely tolerated (unsupported sized kind on the reflective path, open
+	// kind mismatch) shows nothing about the property and does not count as non-trivial
+	res.Nontrivial = st.bodyRan > 0 || (outcome == "error" && nMust > 0)
 	return
 }
 
@@ -496,7 +499,18 @@ func firstLine(s string) string {
 	return s
 }
 
-func stripGoTrace(s string) string { return firstLine(s) }
+var (
+	reQuoted = regexp.MustCompile("\"(?:[^\"\\\\]|\\\\.)*\"?|'[^']*'?")
+	reNumber = regexp.MustCompile(`\b\d+(\.\d+)?\b`)
+)
+
+// stripGoTrace reduces an error message to its shape: first line, quoted text and numbers
+// removed, so that the key of a defect does not change with the argument values.
+func stripGoTrace(s string) string {
+	s = firstLine(s)
+	s = reQuoted.ReplaceAllString(s, "\"…\"")
+	return reNumber.ReplaceAllString(s, "N")
+}
 
 func showArgs(a []SVal) string {
 	p := make([]string, len(a))
